@@ -50,8 +50,10 @@ Checksum(line) ==
                         ELSE F[i - 1] + (IF IsDigit(line[i]) THEN DV(line[i]) ELSE IF line[i] = "-" THEN 1 ELSE 0)
   IN F[68] % 10
 
+\* security classification (column 8): Unclassified, Classified, Secret
+Classes == <<"U", "C", "S">>
 Line1Body(f) ==
-  <<"1", " ">> \o ZPad(f.norad, 5) \o <<"U", " ">>
+  <<"1", " ">> \o ZPad(f.norad, 5) \o <<Classes[f.cls], " ">>
   \o (IF f.desig = 0 THEN Sp(8) ELSE ZPad(f.dyy, 2) \o ZPad(f.dlaunch, 3) \o Pieces[f.desig]) \o <<" ">>
   \o ZPad(f.eyy, 2) \o ZPad(f.edoy, 3) \o <<".">> \o ZPad(f.efrac, 8) \o <<" ">>
   \o <<IF f.ndsgn < 0 THEN "-" ELSE " ", ".">> \o ZPad(f.nd, 8) \o <<" ">>
@@ -74,6 +76,7 @@ Col(line, a, b) == SubSeq(line, a, b)          \* columns a..b, 1-based inclusiv
 PieceIndex(s) == IF \E k \in 1..Len(Pieces) : Pieces[k] = s THEN CHOOSE k \in 1..Len(Pieces) : Pieces[k] = s ELSE 0
 Parse(l1, l2) ==
   [norad |-> ReadInt(Col(l1, 3, 7)),
+   cls |-> IF \E k \in 1..3 : Classes[k] = l1[8] THEN CHOOSE k \in 1..3 : Classes[k] = l1[8] ELSE 0,
    desig |-> IF Col(l1, 10, 17) = Sp(8) THEN 0 ELSE PieceIndex(Col(l1, 15, 17)),
    dyy |-> IF Col(l1, 10, 17) = Sp(8) THEN 0 ELSE ReadInt(Col(l1, 10, 11)),
    dlaunch |-> IF Col(l1, 10, 17) = Sp(8) THEN 0 ELSE ReadInt(Col(l1, 12, 14)),
